@@ -43,8 +43,12 @@ func (s *Snapshot) Aggregate(similar Similarity) *Aggregated {
 	type count struct {
 		ids   []int
 		first bool
+		key   *Signature
 	}
 	b := map[*Signature]*count{}
+	// Buckets in order of first appearance, so that the order of the buckets
+	// that the sort below leaves tied does not depend on map iteration.
+	var order []*count
 	// O(n²). Fix eventually.
 	for _, routine := range s.Goroutines {
 		found := false
@@ -60,6 +64,7 @@ func (s *Snapshot) Aggregate(similar Similarity) *Aggregated {
 					newKey := key.merge(&routine.Signature)
 					b[newKey] = c
 					delete(b, key)
+					c.key = newKey
 				}
 				break
 			}
@@ -68,13 +73,15 @@ func (s *Snapshot) Aggregate(similar Similarity) *Aggregated {
 			// Create a copy of the Signature, since it will be mutated.
 			key := &Signature{}
 			*key = routine.Signature
-			b[key] = &count{ids: []int{routine.ID}, first: routine.First}
+			c := &count{ids: []int{routine.ID}, first: routine.First, key: key}
+			b[key] = c
+			order = append(order, c)
 		}
 	}
-	bs := make([]*Bucket, 0, len(b))
-	for signature, c := range b {
+	bs := make([]*Bucket, 0, len(order))
+	for _, c := range order {
 		sort.Ints(c.ids)
-		bs = append(bs, &Bucket{Signature: *signature, IDs: c.ids, First: c.first})
+		bs = append(bs, &Bucket{Signature: *c.key, IDs: c.ids, First: c.first})
 	}
 	// Do reverse sort.
 	sort.SliceStable(bs, func(i, j int) bool {
